@@ -48,7 +48,7 @@ def _write_opens(func: ast.AST) -> List[ast.Call]:
 
 def r20_1(ctx: Ctx) -> None:
     for qual in ("AntismashResults.write_to_file", "dump_records"):
-        func = ctx.fn(SER, qual)
+        func = ctx.fn(SER, qual, inline=True)
         cfg = CFG(func)
         opens = _write_opens(func)
         if not opens:
@@ -111,54 +111,109 @@ def r20_1(ctx: Ctx) -> None:
 
 
 def r20_2(ctx: Ctx) -> None:
+    from ..flow import exact_condition, nnf, nnf_atoms, nnf_equiv, nnf_not, nnf_or, resolved_facts
     qual = "prepare_output_directory"
-    func = ctx.fn(MAIN, qual)
+    func = ctx.fn(MAIN, qual, inline=True)
     cfg = CFG(func)
+    raises = [n for n in walk_local(func) if isinstance(n, ast.Raise)]
     refusal = None
-    for node in walk_local(func):
-        if isinstance(node, ast.If) and "_ignore_patterns" in txt(node.test) and any(isinstance(s, ast.Raise) for s in node.body):
-            refusal = node
+    refusal_form = None
+    for node in raises:
+        form = resolved_facts(cfg, node, ctx.repo, MAIN)
+        if any("_ignore_patterns" in atom for atom in nnf_atoms(form)):
+            refusal, refusal_form = node, form
     if refusal is None:
         ctx.ob("R20.2", MAIN, func, qual, "refusal test", False,
                "a non-empty output directory (other than ignored entries) is refused unless results are being reused",
-               detail="no `if ... _ignore_patterns ...: raise` found")
+               detail="no raise conditioned on `_ignore_patterns` found")
         return
-    test = refusal.test
-    conj = [txt(v) for v in test.values] if isinstance(test, ast.BoolOp) and isinstance(test.op, ast.And) else [txt(test)]
-    ok = any(c.replace('"', "'") == "not input_file.endswith('.json')" for c in conj) and \
-        any("filter(_ignore_patterns, glob.glob(os.path.join(name, '*')))" in c.replace('"', "'") for c in conj) and \
-        len(conj) == 2 and isinstance(refusal.body[-1], ast.Raise)
+    lits = {lit for lit in refusal_form[1] if lit[0] == "lit"}
+    reuse = [lit for lit in lits if lit[1].replace('"', "'") == "input_file.endswith('.json')" and lit[2] is False]
+    other = [lit for lit in lits if "_ignore_patterns" in lit[1] and lit[2] is True
+             and "glob.glob(os.path.join(name, '*'))" in lit[1].replace('"', "'")]
+    # literals that only establish that the directory exists are part of every path to the refusal
+    extra = [lit for lit in lits if lit not in reuse + other and "os.path.exists(name)" not in lit[1]
+             and "os.path.isdir(name)" not in lit[1]]
+    ok = len(reuse) == 1 and len(other) == 1 and not extra and len(lits) == len(refusal_form[1])
     ctx.ob("R20.2", MAIN, refusal, qual, "refusal test", ok,
            "refuse when the input is not a results file and the directory holds any entry not on the ignore list",
-           form=" and ".join(conj))
-    destructive = [c for c in calls(func) if call_name(c) in DESTRUCTIVE or c in _write_opens(func)]
+           detail="" if ok else f"unexpected extra conditions: {extra}" if extra else "conditions not recognised",
+           form=" and ".join(sorted(("" if lit[2] else "not ") + lit[1] for lit in lits)))
+    writes = _write_opens(func)
+    destructive = [c for c in calls(func) if call_name(c) in DESTRUCTIVE or c in writes]
     if not destructive:
         ctx.ob("R20.2", MAIN, func, qual, "destructive calls", True, "no destructive call in the function", vacuous=True)
-    rn = cfg.n(refusal)
+    # the test node deciding the refusal: the innermost test whose cut disconnects the raise
+    guard_ids = [n.id for n in cfg.nodes if n.kind == "test" and cfg.dominates(n.id, cfg.n(refusal)) and n.id != cfg.n(refusal)]
+    rn = guard_ids[-1] if guard_ids else cfg.n(refusal)
+    for cand in guard_ids:
+        if all(cfg.dominates(other_id, cand) for other_id in guard_ids):
+            rn = cand
+    raising_label = "T" if cfg.n(refusal) in cfg.reach([rn], labels_excluded=["F"]) and \
+        cfg.n(refusal) not in cfg.reach([rn], labels_excluded=["T"]) else "F"
     for index, call in enumerate(destructive):
         ctx.call_sites += 1
-        # reachable only through the F edge of the refusal (the T arm raises)
-        via_true = cfg.n(call) in cfg.reach([rn], labels_excluded=["F"])
-        ok = cfg.dominates(rn, cfg.n(call)) and not via_true
+        via_raise = cfg.n(call) in cfg.reach([rn], labels_excluded=["F" if raising_label == "T" else "T"])
+        ok = cfg.dominates(rn, cfg.n(call)) and not via_raise
         ctx.ob("R20.2", MAIN, call, qual, f"destructive#{index} {call_name(call)}", ok,
                "every call that deletes or overwrites something in the directory runs only after the refusal test passed",
                form=txt(call)[:80])
     # exists/isdir guards
-    ok = any(isinstance(n, ast.If) and txt(n.test) == "not os.path.isdir(name)" and any(isinstance(s, ast.Raise) for s in n.body)
-             for n in walk_local(func))
+    ok = False
+    for node in raises:
+        form = resolved_facts(cfg, node, ctx.repo, MAIN)
+        if ("lit", "os.path.isdir(name)", False) in form[1]:
+            ok = True
     ctx.ob("R20.2", MAIN, func, qual, "not a directory refused", ok, "an existing non-directory target is refused", form="")
     ign = ctx.fn(MAIN, "_ignore_patterns")
-    falses = [r for r in walk_local(ign) if isinstance(r, ast.Return) and isinstance(r.value, ast.Constant) and r.value.value is False]
-    conds = []
-    for r in falses:
-        conds += [txt(t).replace('"', "'") for t, pol in guards(r, stop=ign) if pol]
-    last = ign.body[-1]
-    ok = len(falses) == 2 and sorted(conds) == sorted(["entry.endswith('/input') and os.path.isdir(entry)",
-                                                       "os.path.abspath(entry) == os.path.abspath(config.logfile)"]) \
-        and isinstance(last, ast.Return) and isinstance(last.value, ast.Constant) and last.value.value is True
-    ctx.ob("R20.2", MAIN, ign, "_ignore_patterns", "ignored entries", ok,
-           "only the input copy directory and the log file are exempt from the emptiness check; everything else counts",
-           form="; ".join(conds))
+    icfg = CFG(ign)
+    rets = [r for r in walk_local(ign) if isinstance(r, ast.Return)]
+    yes, no, unknown = [], [], []
+    for ret in rets:
+        try:
+            form = exact_condition(icfg, ret)
+        except ValueError as err:
+            ctx.cannot("R20.2", MAIN, ign, "_ignore_patterns", "ignored entries", str(err))
+            return
+        if isinstance(ret.value, ast.Constant) and ret.value.value is True:
+            yes.append(form)
+        elif isinstance(ret.value, ast.Constant) and ret.value.value is False:
+            no.append(form)
+        else:
+            unknown.append(ret)
+    if unknown or not yes or not no:
+        ctx.cannot("R20.2", MAIN, ign, "_ignore_patterns", "ignored entries",
+                   "the filter does not return constant True / False on every path")
+        return
+    def canon(form):
+        if form[0] == "lit":
+            text = form[1].replace('"', "'")
+            if "entry.endswith('/input')" == text:
+                return ("lit", "is the input copy's name", form[2])
+            if text == "os.path.isdir(entry)":
+                return ("lit", "is a directory", form[2])
+            if "logfile" in text and "os.path.abspath(entry)" in text and text.count("==") == 1:
+                return ("lit", "is the log file", form[2])
+            return form
+        return (form[0], frozenset(canon(sub) for sub in form[1]))
+    yes = [canon(f) for f in yes]
+    no = [canon(f) for f in no]
+    a = ("lit", "is the input copy's name", True)
+    b = ("lit", "is a directory", True)
+    c = ("lit", "is the log file", True)
+    counted = ("and", frozenset([("or", frozenset([nnf_not(a), nnf_not(b)])), nnf_not(c)]))
+    try:
+        same_yes, cex1 = nnf_equiv(nnf_or(yes), counted)
+        same_no, cex2 = nnf_equiv(nnf_or(no), nnf_not(counted))
+    except ValueError as err:
+        ctx.cannot("R20.2", MAIN, ign, "_ignore_patterns", "ignored entries", str(err))
+        return
+    ctx.ob("R20.2", MAIN, ign, "_ignore_patterns", "ignored entries", same_yes and same_no,
+           "only the input copy directory and the log file are exempt from the emptiness check; everything else counts "
+           "(decided by truth table over the tests on every return path)",
+           detail="" if same_yes and same_no else f"differs for {cex1 or cex2}",
+           form=f"counts iff {sorted(str(f) for f in yes)}"[:300])
+    _ = nnf
 
 
 def r20_3(ctx: Ctx) -> None:
